@@ -225,20 +225,23 @@ static MPT_INTERFACE(metatype) *parseClone(const MPT_INTERFACE(metatype) *mt)
 {
 	MPT_STRUCT(parseIterator) *it = MPT_baseaddr(parseIterator, mt, _mt);
 	MPT_INTERFACE(metatype) *copy;
+	const char *sep = (const char *) (it + 1);
+	const char *text = sep + strlen(sep) + 1;
 	char *restore;
 	
-	/* copy unconsumed text without the temporary element termination */
+	/* copy complete text (reset of the clone must replay all elements)
+	 * without the temporary element termination */
 	if ((restore = it->restore)) {
 		*restore = it->save;
 	}
-	copy = mpt_iterator_string(it->val, (char *) (it + 1));
+	copy = mpt_iterator_string(text, sep);
 	if (restore) {
 		*restore = 0;
 	}
-	/* keep consumed state */
-	if (copy && !it->val) {
+	/* continue at same position, keep consumed state */
+	if (copy) {
 		MPT_STRUCT(parseIterator) *c = MPT_baseaddr(parseIterator, copy, _mt);
-		c->val = 0;
+		c->val = it->val ? c->val + (it->val - text) : 0;
 		if (!it->end) {
 			c->end = 0;
 		}
